@@ -444,6 +444,40 @@ class G:
         "two_ifs", "instr_calls", "sliding", "temp2d", "fold", "prefix",
     ]
 
+    # ops whose side conditions are decided by what the motif contains: the session
+    # generator draws part of its ops from the union over the picked motifs, so that
+    # (motif, primitive) pairs near an accept/reject boundary are sampled far more
+    # often than under a uniform choice among all 62 primitives
+    AFFINITY = {
+        "elementwise": ["divide_loop", "cut_loop", "shift_loop", "stage_mem", "bind_expr", "unroll_loop", "divide_with_recompute"],
+        "nest2d": ["reorder_loops", "stage_mem", "mult_loops", "divide_loop", "lift_scope", "fission", "bind_expr", "parallelize_loop"],
+        "temp": ["fuse", "resize_dim", "expand_dim", "reuse_buffer", "delete_buffer", "sink_alloc", "inline_assign", "merge_writes", "stage_mem", "divide_dim", "set_memory"],
+        "accum": ["fission", "autofission", "lift_alloc", "sink_alloc", "autolift_alloc", "reorder_loops", "lift_reduce_constant", "stage_mem", "expand_dim", "remove_loop"],
+        "stencil": ["shift_loop", "cut_loop", "join_loops", "divide_loop", "stage_mem", "lift_scope", "specialize", "eliminate_dead_code"],
+        "guard": ["lift_scope", "specialize", "eliminate_dead_code", "fission", "cut_loop", "divide_loop", "stage_mem", "reorder_stmts"],
+        "small": ["fuse", "unroll_loop", "unroll_buffer", "resize_dim", "merge_writes", "fold_into_reduce", "inline_assign", "reuse_buffer", "delete_buffer", "stage_mem"],
+        "vec4": ["divide_loop", "replace", "stage_mem", "mult_loops", "cut_loop"],
+        "call": ["inline", "call_eqv", "extract_subproc", "inline_window", "insert_noop_call", "replace"],
+        "window": ["inline_window", "reorder_stmts", "fission", "lift_scope", "stage_mem", "add_loop"],
+        "two_loops": ["fuse", "join_loops", "reorder_stmts", "shift_loop", "cut_loop"],
+        "reduce_consts": ["lift_reduce_constant", "merge_writes", "fold_into_reduce", "fission", "split_write", "stage_mem"],
+        "repeat": ["remove_loop", "add_loop", "divide_with_recompute", "unroll_loop", "divide_loop", "cut_loop", "shift_loop"],
+        "padded_acc": ["resize_dim", "expand_dim", "stage_mem", "divide_dim", "unroll_buffer", "reuse_buffer", "fuse", "join_loops"],
+        "row_alloc": ["lift_alloc", "autolift_alloc", "divide_loop", "resize_dim", "expand_dim", "sink_alloc", "reorder_loops"],
+        "masked": ["replace", "unroll_loop", "lift_scope", "specialize", "eliminate_dead_code", "fuse"],
+        "shift_copy": ["shift_loop", "reorder_loops", "fission", "divide_loop", "stage_mem", "parallelize_loop", "unroll_loop"],
+        "else_alloc": ["lift_alloc", "sink_alloc", "lift_scope", "eliminate_dead_code", "delete_buffer", "specialize", "fission", "fuse"],
+        "two_ifs": ["fuse", "reorder_stmts", "lift_scope", "merge_writes", "eliminate_dead_code", "specialize", "add_loop"],
+        "instr_calls": ["inline", "reorder_stmts", "fission", "call_eqv", "unroll_loop", "replace"],
+        "sliding": ["inline", "inline_window", "simplify", "unroll_loop", "divide_loop", "parallelize_loop"],
+        "temp2d": ["unroll_buffer", "mult_dim", "rearrange_dim", "divide_dim", "reuse_buffer", "delete_buffer", "resize_dim", "fuse", "expand_dim"],
+        "fold": ["fold_into_reduce", "split_write", "merge_writes", "commute_expr", "left_reassociate_expr", "bind_expr"],
+        "prefix": ["fission", "autofission", "fuse", "reorder_stmts", "reorder_loops", "stage_mem", "lift_scope", "divide_loop", "merge_writes"],
+        "config": ["bind_config", "write_config", "delete_config", "reorder_stmts", "fission", "inline", "call_eqv", "fuse"],
+        "cfg_rwo": ["delete_config", "write_config", "reorder_stmts", "bind_config", "fission", "lift_scope"],
+        "cfg_callee": ["inline", "call_eqv", "delete_config", "write_config", "reorder_stmts", "bind_config"],
+    }
+
     def program(self, name="p"):
         r = self.r
         motifs = list(self.MOTIFS)
